@@ -461,6 +461,32 @@ fn random_syntax_code(rng: &mut Rng) -> String {
 /// formats whose expected text the harness knows how to build itself: the `SIMPLE_CODES`, token by token
 /// (trimmed of blanks at both ends, as `to_formatted_string` does)
 fn own_render(fmt: &str, t: &Dt) -> Option<String> {
+    // "lit"<code>"lit": quoted literals around ONE code this function knows are shown verbatim around the date
+    if fmt.contains('"') {
+        let (mut lead, mut trail, mut inner) = (String::new(), String::new(), fmt);
+        if let Some(rest) = inner.strip_prefix('"') {
+            let k = rest.find('"')?;
+            lead = rest[..k].to_string();
+            inner = &rest[k + 1..];
+        }
+        if let Some(rest) = inner.strip_suffix('"') {
+            let k = rest.rfind('"')?;
+            trail = rest[k + 1..].to_string();
+            inner = &rest[..k];
+        }
+        if inner.is_empty() || inner.contains('"') || lead.contains('\\') || trail.contains('\\') {
+            return None;
+        }
+        let mid = own_render_plain(inner, t)?;
+        if mid != mid.trim_matches(' ') || inner != inner.trim_matches(' ') {
+            return None;
+        }
+        return Some(format!("{}{}{}", lead, mid, trail).trim_matches(' ').to_string());
+    }
+    own_render_plain(fmt, t)
+}
+
+fn own_render_plain(fmt: &str, t: &Dt) -> Option<String> {
     for (code, toks) in SIMPLE_CODES.iter() {
         if *code == fmt {
             let s: String = toks.iter().map(|k| tk_show(k, t)).collect();
@@ -598,6 +624,8 @@ pub fn exec(out: &mut Out, line: &str) -> (String, bool) {
                                 nt = true;
                                 if SIMPLE_CODES.iter().any(|(c, _)| *c == fmt) {
                                     out.count(&format!("simple.{}", fmt));
+                                } else if fmt.contains('"') {
+                                    out.count("quoted-literal.code-compared");
                                 } else {
                                     out.count("syntax.code");
                                     out.count(&format!("syntax.len{:02}", fmt.len() / 8 * 8));
@@ -879,6 +907,13 @@ pub fn gen_each(tier: Tier, seed: u64, f: &mut dyn FnMut(String)) {
         t += step;
     }
     // ---- every SimpleDateCode of C18_simple_codes on a day stream and on a second stream
+    // quoted literals around a date code (at the front, at the end, at both ends): the date is still shown
+    for (qi, code) in ["\"[\"yyyy-mm-dd\"]\"", "\"on \"yyyy-mm-dd hh:mm:ss\" ok\"", "\"\u{897f}\u{66a6}\"yyyy/m/d\"\u{65e5}\"", "yyyy-mm-dd\" UTC\"", "\"day \"d", "\"(\"h:mm AM/PM\")\"", "\"<\"dddd, mmmm d, yyyy\">\""].iter().enumerate() {
+        for (k, day) in [1i64, 59, 61, 36526, 45000, 2958465].iter().enumerate() {
+            let x = *day as f64 + [0.0, 0.25, 0.5, 0.75][(qi + k) % 4];
+            f(format!("c18 fmt {} {}", hex(code), x.to_bits()));
+        }
+    }
     for (ci, (code, toks)) in SIMPLE_CODES.iter().enumerate() {
         let text: String = toks.iter().map(tk_text).collect();
         assert_eq!(&text, code, "token list of a simple code does not spell the code");
